@@ -9,4 +9,7 @@ EXPLANATION = (
     "presence with HasField/WhichOneof of the reference is bounded (stand-in).")
 ASSUMED = ["AX_PAYLOAD_NONEMPTY (A-UTF8/A-STRUCT/time)", "reference presence: bounded differential only"]
 from pyvc.check import standin_bounded
-BOUNDED = [standin_bounded("C06")]
+from pyvc.check import external_bounded
+BOUNDED = [standin_bounded("C06"),
+           external_bounded("deep-schema:C06", "standin.deep", ["C06", "--n", "150"], ["C06", "--n", "800"],
+                            "nested schema (containers of oneof-carrying / field-less messages, two-level lazy parents, float maps, Duration JSON strings); observation-based oracle")]
